@@ -283,6 +283,9 @@ def df_to_csv(I, st, recv, args, kw, node):
     leaf = _leaf_of(p)
     if leaf is None:
         raise Unsupported("to_csv to an unnamed file")
+    if kw and set(kw) - {"path_or_buf"} or len(args) > 1:
+        # (float_format= / na_rep= / columns= / header= ... change the text that read_csv gets back)
+        raise Unsupported(f"DataFrame.to_csv with options outside the modelled call to_csv(path): {sorted(kw)}")
     set_disk(st, get_disk(I, st).put(leaf, ("csv", recv._cols)))
     return NONE
 
@@ -294,6 +297,10 @@ def pd_read_csv(I, st, args, kw, node):
     fp = kw.get("float_precision")
     if not (isinstance(fp, VStr) and fp.text == "round_trip"):
         raise Unsupported("pd.read_csv without float_precision='round_trip' does not return the stored floats exactly")
+    other = sorted(set(kw) - {"float_precision"})
+    if other or len(args) != 1:
+        # (na_filter=False brings NaN back as text, dtype= / converters= / usecols= change what is returned ...)
+        raise Unsupported(f"pd.read_csv with options outside the modelled call read_csv(path, float_precision='round_trip'): {other}")
     if not I.in_contract:
         I.safety(st, get_disk(I, st).exists(leaf), "file-exists", node)
     o = Opaque(z3.Const(fresh_name("df"), ObjS), "DataFrame")
